@@ -136,6 +136,10 @@ func c38GenTree(rt *rapid.T, env *c38Env, maxTrunk int) *c38Tree {
 		return func(i int, gen *BlockGen) {
 			// Distinguish competing blocks even when they carry no transactions.
 			gen.SetExtra([]byte{byte(forkID), byte(i)})
+			// A fork-specific fee recipient keeps the state roots of competing non-empty
+			// blocks distinct (as on real networks); identical roots of distinct blocks
+			// would let HasBlockAndState mistake one block's state for the other's.
+			gen.SetCoinbase(common.Address{0xc0, byte(forkID)})
 			ntx := rapid.SampledFrom([]int{0, 0, 1, 1, 2, 3}).Draw(rt, "ntx")
 			for k := 0; k < ntx; k++ {
 				kp := env.keys[rapid.IntRange(0, len(env.keys)-1).Draw(rt, "key")]
@@ -144,12 +148,12 @@ func c38GenTree(rt *rapid.T, env *c38Env, maxTrunk int) *c38Tree {
 				var tx *types.Transaction
 				if rapid.IntRange(0, 3).Draw(rt, "kind") > 0 {
 					tx = types.MustSignNewTx(kp.key, signer, &types.LegacyTx{
-						Nonce: nonce, GasPrice: new(big.Int).Add(gen.BaseFee(), big.NewInt(int64(salt))), Gas: 300000 + salt, Data: c38LogCode,
+						Nonce: nonce, GasPrice: new(big.Int).Add(gen.BaseFee(), big.NewInt(int64(salt+1))), Gas: 300000 + salt, Data: c38LogCode,
 					})
 				} else {
 					to := common.Address{0xaa, byte(salt)}
 					tx = types.MustSignNewTx(kp.key, signer, &types.LegacyTx{
-						Nonce: nonce, To: &to, Value: big.NewInt(1000), GasPrice: new(big.Int).Set(gen.BaseFee()), Gas: params.TxGas,
+						Nonce: nonce, To: &to, Value: big.NewInt(1000), GasPrice: new(big.Int).Add(gen.BaseFee(), big.NewInt(1)), Gas: params.TxGas,
 					})
 				}
 				gen.AddTx(tx)
@@ -373,6 +377,7 @@ type c38Machine struct {
 	maxDeep int
 	st      *vs.S
 	leaves  []*c38Node
+	rewound map[*c38Node]bool // blocks whose data a SetHead deleted at least once
 
 	dupAnnounce int // logs announced again while still announced (observation, not asserted)
 
@@ -537,7 +542,9 @@ func (m *c38Machine) verify(what string) {
 				m.fatalf("%s: ReadCanonicalTransaction(%x) = block %x #%d index %d, which is not a canonical inclusion", what, txh.Bytes()[:4], bh.Bytes()[:4], bn, ti)
 			}
 			rc, rbh, rbn, ri := rawdb.ReadCanonicalReceipt(db, txh, m.env.config)
-			if rc == nil || rbh != bh || rbn != bn || ri != ti || rc.TxHash != txh || rc.BlockHash != bh || rc.TransactionIndex != uint(idx) {
+			if rc == nil && m.ghostTolerated(n) {
+				// known finding, see ghostTolerated
+			} else if rc == nil || rbh != bh || rbn != bn || ri != ti || rc.TxHash != txh || rc.BlockHash != bh || rc.TransactionIndex != uint(idx) {
 				m.fatalf("%s: ReadCanonicalReceipt(%x) inconsistent with the transaction lookup (%v)", what, txh.Bytes()[:4], rc)
 			}
 		}
@@ -571,8 +578,21 @@ func (m *c38Machine) verify(what string) {
 	m.canon = canon
 }
 
+// ghostTolerated reports whether missing receipts of n fall under the known finding
+// "state left behind by SetHead makes a block re-stored without execution look executed".
+func (m *c38Machine) ghostTolerated(n *c38Node) bool {
+	if m.rewound[n] && vs.Known("TestVerifC38Machine", c38ClassGhostState) {
+		m.st.Excluded()
+		return true
+	}
+	return false
+}
+
 func (m *c38Machine) checkReceipts(what string, n *c38Node, rs types.Receipts, via string) {
 	txs := n.block.Transactions()
+	if len(rs) == 0 && len(txs) > 0 && m.ghostTolerated(n) {
+		return
+	}
 	if rs == nil && len(txs) > 0 || len(rs) != len(txs) {
 		m.fatalf("%s: %s for canonical block %s returned %d receipts, want %d", what, via, m.name(n), len(rs), len(txs))
 	}
@@ -646,6 +666,9 @@ func (m *c38Machine) checkEvents(what string, old, cur []*c38Node, o c38Observed
 		if !ok || n.num() >= uint64(len(cur)) || cur[n.num()] != n {
 			m.fatalf("%s: ChainEvent for block #%d %x which is not on the new canonical chain", what, ce.Header.Number, ce.Header.Hash().Bytes()[:4])
 		}
+		if len(ce.Receipts) == 0 && len(ce.Transactions) == len(n.block.Transactions()) && len(ce.Transactions) > 0 && m.ghostTolerated(n) {
+			continue // known finding, see ghostTolerated
+		}
 		if len(ce.Transactions) != len(n.block.Transactions()) || len(ce.Receipts) != len(n.block.Transactions()) {
 			m.fatalf("%s: ChainEvent for %s carries %d txs / %d receipts, block has %d", what, m.name(n), len(ce.Transactions), len(ce.Receipts), len(n.block.Transactions()))
 		}
@@ -696,6 +719,10 @@ func (m *c38Machine) checkEvents(what string, old, cur []*c38Node, o c38Observed
 				// canonical again through writeKnownBlock do not get their logs announced
 				tolerated[l.key(false)] = struct{}{}
 			}
+			if m.rewound[n] && vs.Known("TestVerifC38Machine", c38ClassGhostState) {
+				// known finding: such blocks have no receipts, hence no logs to announce
+				tolerated[l.key(false)] = struct{}{}
+			}
 			want[l.key(false)] = struct{}{}
 		}
 	}
@@ -738,6 +765,7 @@ func (m *c38Machine) names(ns []*c38Node) string {
 const (
 	c38ClassKnownNoLogs   = "insertchain-known-blocks-no-logs"
 	c38ClassHeaderAhead   = "head-header-ahead-stale-canonical-above"
+	c38ClassGhostState    = "sethead-leftover-state-blocks-without-receipts"
 )
 
 // known returns the tree nodes whose block is stored in the chain database.
@@ -791,7 +819,7 @@ func c38Run(rt *rapid.T, st *vs.S, maxTrunk, maxActions int) {
 	c := st.Case()
 	env := c38DrawEnv(rt)
 	tree := c38GenTree(rt, env, maxTrunk)
-	m := &c38Machine{rt: rt, env: env, tree: tree, db: rawdb.NewMemoryDatabase(), stale: map[common.Hash]struct{}{}, st: st}
+	m := &c38Machine{rt: rt, env: env, tree: tree, db: rawdb.NewMemoryDatabase(), stale: map[common.Hash]struct{}{}, st: st, rewound: map[*c38Node]bool{}}
 	scheme := rapid.SampledFrom([]string{rawdb.HashScheme, rawdb.PathScheme}).Draw(rt, "scheme")
 	m.cfg = DefaultConfig().WithStateScheme(scheme)
 	m.limit = rapid.SampledFrom([]int64{0, 0, 2, 5}).Draw(rt, "txLookupLimit")
@@ -962,6 +990,7 @@ func c38Run(rt *rapid.T, st *vs.S, maxTrunk, maxActions int) {
 					for _, tx := range n.block.Transactions() {
 						m.stale[tx.Hash()] = struct{}{}
 					}
+					m.rewound[n] = true
 				}
 			}
 			forkBelow := false
